@@ -160,4 +160,55 @@ PROPS['C07'] = {
     'assumptions': [CORR],
 }
 
+PROPS['C01'] = {
+    'lean_targets': ['EmmetProps.C01'],
+    'lean_imports': ['EmmetProps.C01'],
+    'theorems': [
+        thm('EmmetProps.C01_parse', 'for EVERY operator skeleton (elements, groups, *N, > + ^... at any depth): the parser model on its tokens returns exactly the forest the operators denote (compositional `levels` semantics; ^ stops at the top level and at a group boundary; a group is one unit)'),
+        thm('EmmetProps.C01_unroll', 'for EVERY skeleton forest: the converter model yields every written element exactly once per repetition, in document order, groups spliced'),
+    ],
+    'domains': ['dom_markup'],
+    'rule': 'EVERY operator skeleton with up to 3 (quick) / 4 (thorough) items over > + ^ ^^ ( ) *2 (exhaustive) x 2-4 configurations, plus random abbreviations from the typed AST generator (elements with implicit names, classes, ids, attributes, text, *N, groups to depth 3, climbs up to ^^^) under html/xml/xhtml self-closing styles, format on/off and parent contexts; expected tag sequence computed from the statement (levels semantics + unrolling + implicit-name table) and compared with the tags read from the output; non-trivial = at least two operators; distinct = distinct (abbreviation, config)',
+    'explanation': 'Parser and converter stages are theorems over all skeletons; the implicit-name table, snippet resolution and the formatter stage that prints the tree are decided by correspondence (full pipeline model = expand() on every generated input) and by the statement-derived oracle.',
+    'level_text': 'Lean 4 theorems over ALL operator skeletons: parser = denotation, converter = unrolling. The printed output carrying that tree (implicit names, formatter) is at correspondence + oracle level, exhaustive for small skeletons.',
+    'level_note': 'Trusted: Lean kernel + standard axioms; hand-written models of tokenizer, parser, convert, snippets, implicit_tag, html formatter (0 differences with expand() on all explored inputs). The lexical step print(skeleton) -> tokens is covered by correspondence, not proved.',
+    'assumptions': [CORR],
+}
+
+PROPS['C02'] = {
+    'lean_targets': ['EmmetProps.C02'],
+    'lean_imports': ['EmmetProps.C02'],
+    'theorems': [thm('EmmetProps.C02_count', 'for EVERY skeleton forest with *N on elements and groups at any depth: exactly N consecutive copies with repeater values 0..N-1 and count N (what $ numbering reads), as long as the repeat guard exceeds the number of copies', partial=True)],
+    'domains': ['dom_markup'],
+    'rule': 'exhaustive numbering forms ($ widths 1-3 x @M / @- / @-M bases x N up to 5 (quick) / 12 (thorough)) on four carriers (name, attribute value, text, repeated group), plus random abbreviations with nested repeaters and numbering in names / classes / attribute values / text under maxRepeat limits 1,2,3,5,9 and none; expected elements computed from the statement (threaded completion budget); non-trivial = at least two operators; distinct = distinct (abbreviation, config)',
+    'explanation': 'The count clause is a theorem for guard > cost; the numbering arithmetic and the maxRepeat pruning are decided by correspondence + oracle (theorem for those clauses is future work).',
+    'level_text': 'Lean 4 theorem for the count clause over ALL skeleton forests (partial: guard not exhausted, numbering arithmetic not yet a theorem); numbering forms and maxRepeat limits: exhaustive-by-form correspondence + statement-derived oracle.',
+    'level_note': 'Trusted: Lean kernel + standard axioms; converter / stringify models tied by correspondence.',
+    'assumptions': [CORR],
+}
+
+PROPS['C03'] = {
+    'lean_targets': ['EmmetProps.C03'],
+    'lean_imports': ['EmmetProps.C03'],
+    'theorems': [thm('EmmetProps.C03_merge', 'for ANY attribute type and merge function that keeps the name: the merge loop = declarative group-by-name specification (order of first mention; later mentions folded into the first)', partial=True)],
+    'domains': ['dom_markup'],
+    'rule': 'random elements with up to 8 mentions in any order (#id, .class, [name=value] quoted / unquoted / empty / valueless / boolean / implied / expression, repeated names incl. class and id through attribute sets) under 10 attribute-related configurations (quotes, case, compactBoolean, reverseAttributes, jsx, vue, xml, custom booleanAttributes); expected attribute list computed from the statement; non-trivial = at least two operators; distinct = distinct (abbreviation, config)',
+    'explanation': 'The merge loop is a theorem on an abstract attribute type that the concrete model instantiates; parsing of attribute sets, flags, quoting and name mapping are decided by correspondence + oracle.',
+    'level_text': 'Lean 4 theorem: the merge loop equals the declarative group-by specification for any attribute type (partial: the instantiation to the concrete attribute record and the rendering table are checked by correspondence + oracle).',
+    'level_note': 'Trusted: Lean kernel + standard axioms; models of parser attribute sets, convert_attribute, merge_attributes, push_attribute tied by correspondence.',
+    'assumptions': [CORR],
+}
+
+PROPS['C04'] = {
+    'lean_targets': ['EmmetProps.C04'],
+    'lean_imports': ['EmmetProps.C04'],
+    'theorems': [thm('EmmetProps.C04_text_tokens', 'for ANY run of inert tokens (literals, white space, operators, brackets, quotes): stringify_value returns the single string made of their characters and leaves the converter state unchanged', partial=True)],
+    'domains': ['dom_markup'],
+    'rule': 'all well-formed text payloads up to length 2 (quick) / 3 (thorough) over the punctuation alphabet (operators, brackets, quotes, *, escapes) at 2 positions, random longer payloads with nested braces / escapes / unicode at 5 positions, and wrap-text cases: 8 abbreviation templates (with / without implicit repeater, $# in attributes and text) x random line lists drawn from abbreviation look-alikes, blanks, white-space-only lines; expected output computed from the statement; non-trivial = at least two operators; distinct = distinct (abbreviation, config)',
+    'explanation': 'Token-level verbatim theorem; the tokenizer step (characters between braces -> inert tokens with escapes removed), placement before children and the wrap-text rules are decided by correspondence + oracle.',
+    'level_text': 'Lean 4 theorem at token level (text tokens are data; operators inert); lexing of text payloads and wrap-text placement: exhaustive-for-short-payload correspondence + statement-derived oracle (partial).',
+    'level_note': 'Trusted: Lean kernel + standard axioms; tokenizer / convert models tied by correspondence.',
+    'assumptions': [CORR],
+}
+
 NOT_APPLICABLE = {}
